@@ -4445,6 +4445,8 @@ def bundle_readpath(P, R, L):
     R.once(blind.blkw1_entry_header_through_the_codec, P, R, L)
     R.clause("ITR-3", "the collapse loops of the client iterator move the inner iterator one record at a time (no re-seek shortcut)")
     R.once(blind.itr3_collapse_loops_only_step, P, R, L)
+    R.clause("BLKR-1", "the block reader parses entries while the cursor is below the end of the entry area (no minimum-size cut-off: entries can be 4 bytes short)")
+    R.once(blind.blkr1_reader_consumes_every_entry, P, R, L)
 
 
 def bundle_recovery(P, R, L):
